@@ -66,6 +66,20 @@ def templates():
                     yield f'{iname}/{wname}/{"notail" if tail is None else "tail" if tail == C else "tail-ac"}/{order}', [('start', body)] + rules
 
 
+def history_templates():
+    """a path tried earlier passes a cut further into the input and fails; after backtracking a cut at a smaller position must still commit"""
+    A, B, C, D = ('tok', 'a'), ('tok', 'b'), ('tok', 'c'), ('tok', 'd')
+    late = ('seq', (A, B, ('cut',), C))                       # cut after two lexemes
+    early = ('alt', (('seq', (A, ('cut',), C)), ('seq', (A, B, D))))    # cut after one lexeme, then an alternative that would match 'a b d'
+    yield 'hist/rules-in-choice', [('start', ('alt', (('call', 'r1'), ('call', 'r2')))), ('r1', late), ('r2', early)]
+    yield 'hist/optional-then-rule', [('start', ('seq', (('opt', ('call', 'r1')), ('call', 'r2')))), ('r1', late), ('r2', early)]
+    yield 'hist/closure-then-rule', [('start', ('seq', (('star', ('call', 'r1')), ('call', 'r2')))), ('r1', late), ('r2', early)]
+    yield 'hist/lookahead-then-rule', [('start', ('seq', (('not', ('call', 'r1')), ('call', 'r2')))), ('r1', late), ('r2', early)]
+    yield 'hist/inline', [('start', ('alt', (('seq', (('grp', ('alt', (late, ('seq', (A, B, B))))), D)), ('grp', early))))]
+    yield 'hist/three-rules', [('start', ('alt', (('seq', (('call', 'r1'), D)), ('seq', (('call', 'r2'), D)), ('call', 'r3')))), ('r1', late), ('r2', early),
+                               ('r3', ('alt', (('seq', (A, B, ('cut',), D, D)), ('seq', (A, B, D)))))]
+
+
 def run_shard(sh, kind, **kw):
     if kind == 'templates':
         return run_templates(sh, **kw)
@@ -75,7 +89,8 @@ def run_shard(sh, kind, **kw):
 def run_templates(sh, index, nshards, maxlen):
     import itertools
     complete = True
-    for k, (name, rules) in enumerate(templates()):
+    import itertools as _it
+    for k, (name, rules) in enumerate(_it.chain(templates(), history_templates())):
         if k % nshards != index:
             continue
         reset_tatsu_state()
